@@ -414,7 +414,21 @@ def _run_base(case, ctx):
     mp = gen.material_props(r) if r.random() < 0.5 else None
     spec = gen.point_spec(r, n=2, units=gen.random_units(r), extras=False, meta=gen.json_metadata(r), material_props=mp)
     iso = gen.build_base(spec)
-    _roundtrip(ctx, iso, "base", {"units": spec["units"], "meta": spec["meta"], "material": spec["material"]})
+    if case["seed"] % 3 == 0 and spec["temperature"]:
+        # built with the constructor's shorthands (m=, a=, t=), and its temperature unit changed afterwards
+        # (t=0 - zero degrees Celsius - is taken for "not given" by the shorthand loop and refused: a constructor quirk outside
+        # this property, noted in DESIGN.md; such records use the long names)
+        from pygaps.core.baseisotherm import BaseIsotherm
+        kw = gen._kw(spec)
+        kw["m"], kw["a"], kw["t"] = kw.pop("material"), kw.pop("adsorbate"), kw.pop("temperature")
+        try:
+            iso = BaseIsotherm(**kw)
+            iso.convert_temperature("°C" if iso.temperature_unit == "K" else "K")
+            ctx.count("histories", "built-with-shorthands-then-temperature-unit-changed")
+        except Exception as exc:
+            ctx.violation("base/shorthand-construction-raises", "building an isotherm with the m= / a= / t= shorthands (or converting its temperature) raised", exc=exc)
+            return
+    _roundtrip(ctx, iso, "base", {"units": dict(iso.units), "meta": spec["meta"], "material": spec["material"]})
 
 
 def finalize(ctx):
